@@ -79,14 +79,14 @@ Theorem C20_single_owner_atomic_guard :
 Proof. exact atomic_single_owner. Qed.
 Print Assumptions C20_single_owner_atomic_guard.
 
-(* The finding (F19): the statements as coded, interleaved at statement granularity, admit two
+(* The finding (F19): the statements as coded, interleaved at statement granularity, let two
    owners; kept as documentation of the behaviour before the repair. *)
-Theorem C20_race_admits_two_owners_before_fix_refuted :
+Theorem C20_race_two_owners_before_fix_refuted :
   exists sched,
     let st := run guard_as_coded sched (init guard_as_coded two_first_calls) in
     In (EvOk 0) (log st) /\ In (EvOk 1) (log st).
-Proof. exact race_admits_two_owners. Qed.
-Print Assumptions C20_race_admits_two_owners_before_fix_refuted.
+Proof. exact race_two_owners. Qed.
+Print Assumptions C20_race_two_owners_before_fix_refuted.
 
 Theorem C20_owner_changes_before_fix_refuted :
   exists s1 s2,
